@@ -56,6 +56,9 @@ HOOKS = [
     Stub('gh_move', ghosts=['G_blk', 'G_nctor', 'G_nmove', 'G_ext_addr', 'G_ext_val'], optional=True,
          body='{ FAIL_MAYBE(); int v_ = a2; if(IN_HEAP(a1)){ ' + elem_guard('a1', True, 'move-construct from') + ' v_ = G_blk[BLK(a1)].val[IDX(a1)]; } else if(a1 != 0 && a1 == G_ext_addr) v_ = G_ext_val; if(!IN_HEAP(a0)){ G_ext_addr = a0; G_ext_val = v_; return; } ' + elem_guard('a0', False, 'move-construct') +
               'G_blk[BLK(a0)].live[IDX(a0)] = 1; G_blk[BLK(a0)].val[IDX(a0)] = v_; G_nctor++; G_nmove++; return; }'),
+    Stub('gh_movenf', ghosts=['G_blk', 'G_nctor', 'G_nmove', 'G_ext_addr', 'G_ext_val'], optional=True,
+         body='{ int v_ = a2; if(IN_HEAP(a1)){ ' + elem_guard('a1', True, 'move-construct from') + ' v_ = G_blk[BLK(a1)].val[IDX(a1)]; } else if(a1 != 0 && a1 == G_ext_addr) v_ = G_ext_val; if(!IN_HEAP(a0)){ G_ext_addr = a0; G_ext_val = v_; return; } ' + elem_guard('a0', False, 'move-construct') +
+              'G_blk[BLK(a0)].live[IDX(a0)] = 1; G_blk[BLK(a0)].val[IDX(a0)] = v_; G_nctor++; G_nmove++; return; }'),
     Stub('gh_assign', ghosts=['G_blk', 'G_nassign', 'G_ncopy'], optional=True,
          body='{ FAIL_MAYBE(); int v_ = a2; if(IN_HEAP(a1)){ ' + elem_guard('a1', True, 'assign from') + ' v_ = G_blk[BLK(a1)].val[IDX(a1)]; } else if(a1 != 0 && a1 == G_ext_addr) v_ = G_ext_val; if(!IN_HEAP(a0)) return; ' + elem_guard('a0', True, 'assign to') +
               'G_blk[BLK(a0)].val[IDX(a0)] = v_; G_nassign++; G_ncopy++; return; }'),
@@ -64,18 +67,34 @@ HOOKS = [
 ]
 
 PRELUDE = r'''
-extern "C" { void gh_ctor(void*); void gh_copy(void*, void const*, int); void gh_move(void*, void*, int); void gh_assign(void*, void const*, int); void gh_dtor(void*);
+extern "C" { void gh_ctor(void*); void gh_copy(void*, void const*, int); void gh_move(void*, void*, int); void gh_movenf(void*, void*, int); void gh_assign(void*, void const*, int); void gh_dtor(void*);
              void* gh_allocate(unsigned long n, int id); void gh_deallocate(void*, unsigned long n, int id); }
 // payload-free element: the special members only call the ghost hooks (the ghost heap keeps liveness and value per element address)
 struct FV { int v; explicit FV(int x) : v{x} {} };   // carrier of a fill value living outside the ghost heap
+struct E2 {   // a second element type, convertible to E (for converting assignment / construction)
+	E2() { gh_ctor(this); }
+	E2(E2 const& o) { gh_copy(this, &o, 0); }
+	auto operator=(E2 const& o) -> E2& { gh_assign(this, &o, 0); return *this; }
+	~E2() { gh_dtor(this); }
+};
 struct E {
 	E() { gh_ctor(this); }
+	E(E2 const& o) { gh_copy(this, &o, 0); }   // NOLINT: converting constructor
+	auto operator=(E2 const& o) -> E& { gh_assign(this, &o, 0); return *this; }
 	E(FV f) { gh_copy(this, nullptr, f.v); }   // NOLINT: element constructed from a plain value
 	E(E const& o) { gh_copy(this, &o, 0); }
 	E(E&& o) noexcept(false) { gh_move(this, &o, 0); }
 	auto operator=(E const& o) -> E& { gh_assign(this, &o, 0); return *this; }
 	auto operator=(E&& o) noexcept(false) -> E& { gh_assign(this, &o, 0); return *this; }
 	~E() { gh_dtor(this); }
+};
+// element with a non-throwing move and a throwing copy (like std::string): move construction cannot fail, copy construction can
+struct EN {
+	EN() { gh_ctor(this); }
+	EN(EN const& o) { gh_copy(this, &o, 0); }
+	EN(EN&& o) noexcept { gh_movenf(this, &o, 0); }
+	auto operator=(EN const& o) -> EN& { gh_assign(this, &o, 0); return *this; }
+	~EN() { gh_dtor(this); }
 };
 // allocator with an identity and configurable propagation traits
 template<class T, bool POCCA = false, bool POCMA = false, bool POCS = false>
@@ -96,6 +115,11 @@ struct A {
 template<multi::dimensionality_type D> using Arr = multi::array<E, D, A<E>>;
 template<multi::dimensionality_type D> using ArrP = multi::array<E, D, A<E, true, true, true>>;    // all propagate_on_container_* traits true
 template<multi::dimensionality_type D> using ArrS = multi::array<E, D, A<E, false, false, true>>;  // only propagate_on_container_swap
+template<multi::dimensionality_type D> using ArrQ = multi::array<E2, D, A<E2>>;
+extern "C" { void mkQ1(ArrQ<1>* out, long n0, int id){ new(out) ArrQ<1>(multi::extensions_t<1>{n0}, A<E2>{id}); }
+             void mkQ2(ArrQ<2>* out, long n0, long n1, int id){ new(out) ArrQ<2>(multi::extensions_t<2>{n0, n1}, A<E2>{id}); } }
+template<multi::dimensionality_type D> using ArrN = multi::array<EN, D, A<EN>>;
+extern "C" { void mkN1(ArrN<1>* out, long n0, int id){ new(out) ArrN<1>(multi::extensions_t<1>{n0}, A<EN>{id}); } }
 extern "C" {
 void mk1(Arr<1>* out, long n0, int id){ new(out) Arr<1>(multi::extensions_t<1>{n0}, A<E>{id}); }
 void mk2(Arr<2>* out, long n0, long n1, int id){ new(out) Arr<2>(multi::extensions_t<2>{n0, n1}, A<E>{id}); }
@@ -149,8 +173,8 @@ for D in (1, 2):
           ensures=[('success: extents as requested, storage from the given allocator, every element constructed exactly once (C08, C10)',
                     'IMPLIES(EXC == 0, %s && %s && out->alloc_.id == id && G_nctor == %s && G_nalloc == ((%s) > 0 ? 1 : 0) && G_ndealloc == 0 && G_ndtor == 0)'
                     % (shape('out', D, ['n%d' % k for k in range(D)]), RI('out', D), prod(['n%d' % k for k in range(D)]), prod(['n%d' % k for k in range(D)]))),
-                   ('failure: the exception reaches the caller and nothing is left behind -- no block outstanding, no live element (C09)',
-                    'IMPLIES(EXC != 0, %s == 0 && %s == 0 && G_nalloc == G_ndealloc && G_nctor == G_ndtor)' % (owned_blocks(), total_live()))],
+                   ('failure: the exception reaches the caller and no live element is left behind (C09)', 'IMPLIES(EXC != 0, %s == 0 && G_nctor == G_ndtor)' % total_live()),
+                   ('failure: no block is left outstanding (C09)', 'IMPLIES(EXC != 0, %s == 0 && G_nalloc == G_ndealloc)' % owned_blocks())],
           covers=['EXC == 0 && ' + ' && '.join('n%d > 1' % k for k in range(D)), 'EXC != 0 && G_nctor > 0', 'EXC != 0 && G_nalloc == 0', 'EXC == 0 && n0 == 0'],
           assigns=['*out'], **COMMON)
     # ---------------------------------------------------------------- destructor
@@ -202,6 +226,23 @@ for D in (1, 2):
               covers=['EXC == 0 && g_a0 != g_b0 && g_a0 > 0 && g_b0 > 1', 'EXC == 0 && ' + ' && '.join('g_a%d == g_b%d' % (k, k) for k in range(D)) + ' && g_a0 > 1', 'EXC != 0'],
               assigns=['*a'], **two, **COMMON, **TIER(D, True))
         if P == 'S': del CHECKS['B%s_copy_assign' % tag]      # the swap-only variant is instantiated for swap / move assignment only
+        if P == '':
+            ARQ = r're:boost::multi::array<E2,%d,A<E2(,false,false,false)?>>' % D
+            baseQ = '__CPROVER_assume(%s && %s); ' % (bounds('a', D), bounds('b', D)) + INIT + mkx('a', ns_a, 'g_ida') + 'G_may_fail = 0; mkQ%d(b, %s, g_idb); __CPROVER_assume(!EXC); ' % (D, ', '.join(ns_b)) + HAVOC(0) + HAVOC(1) + SNAP('g_va', 'BLK(a->base_)') + SNAP('g_vb', 'BLK(b->base_)')
+            Check('B%s_conv_assign' % tag, ['C04', 'C08', 'C09', 'C10'], params=['a', 'b'], fn='w_B%s_conv_assign' % tag,
+                  wrapper=('void', 'Arr<%d>* a, ArrQ<%d> const* b' % (D, D), '*a = *b;'),
+                  cxx={'a': ARREC, 'b': ARQ}, ghosts=G, extra_roots=['mk%d' % D, 'mkQ%d' % D],
+                  setup=SNAPDECL + baseQ + 'G_may_fail = 1;', requires=req2,
+                  ensures=[('success: a has the extents of b and, element for element, the converted values of b; b is unchanged; storage not shared (C04)',
+                            'IMPLIES(EXC == 0, %s && %s && %s && %s && (%s == 0 || (void*)a->base_ != (void*)b->base_))' % (same_shape('a', 'b', D), RI('b', D), vals_are('a', nb, 'g_vb'), vals_are('b', nb, 'g_vb'), nb)),
+                           ('success: a is valid and keeps its own allocator (C10)', 'IMPLIES(EXC == 0, %s && a->alloc_.id == g_ida)' % RI('a', D)),
+                           ('success: nothing leaked, nothing released twice (C08)', 'IMPLIES(EXC == 0, %s == %s && %s == %s + %s)' % (owned_blocks(), narr(na, nb), total_live(), na, nb)),
+                           ('failure: b is untouched and still valid', 'IMPLIES(EXC != 0, %s && %s)' % (RI('b', D), vals_are('b', nb, 'g_vb'))),
+                           ('failure: a is still a valid array (destructible, assignable, extents consistent with its live elements) (C09)', 'IMPLIES(EXC != 0, %s)' % RI('a', D)),
+                           ('failure: no element leaked (C09)', 'IMPLIES(EXC != 0 && %s, %s == %s + %s)' % (RI('a', D), total_live(), na, nb)),
+                           ('failure: no block leaked (C09)', 'IMPLIES(EXC != 0 && %s, %s == %s)' % (RI('a', D), owned_blocks(), narr(na, nb)))],
+                  covers=['EXC == 0 && g_a0 != g_b0 && g_a0 > 0 && g_b0 > 1', 'EXC == 0 && g_a0 == 0 && g_b0 > 1', 'EXC != 0 && g_a0 == 0 && g_b0 > 1'],
+                  assigns=['*a'], **COMMON, **TIER(D, True))
         # ------------------------------------------------------------ move assignment  a = std::move(b)
         Check('B%s_move_assign' % tag, ['C04', 'C08', 'C09', 'C10'], params=['a', 'b'], fn='w_B%s_move_assign' % tag,
               wrapper=('void', '%s<%d>* a, %s<%d>* b' % (AR, D, AR, D), '*a = std::move(*b);'),
@@ -236,8 +277,33 @@ for D in (1, 2):
                     'IMPLIES(EXC == 0, %s && %s && %s && %s && %s && (%s == 0 || out->base_ != a->base_))' % (same_shape('out', 'a', D), RI('out', D), RI('a', D), vals_are('out', na, 'g_va'), vals_are('a', na, 'g_va'), na)),
                    ('success: allocator obtained through select_on_container_copy_construction (here: a copy of the source allocator) (C10)', 'IMPLIES(EXC == 0, out->alloc_.id == g_ida)'),
                    ('failure: the source is untouched', 'IMPLIES(EXC != 0, %s && %s)' % (RI('a', D), vals_are('a', na, 'g_va'))),
-                   ('failure: a failed constructor leaves nothing behind: only the source block outstanding, only its elements alive (C09)', 'IMPLIES(EXC != 0, %s == %s && %s == %s)' % (owned_blocks(), narr(na), total_live(), na))],
+                   ('failure: a failed constructor leaves no element behind: only the elements of the source are alive (C09)', 'IMPLIES(EXC != 0, %s == %s)' % (total_live(), na)),
+                   ('failure: a failed constructor leaves no block behind: only the source block is outstanding (C09)', 'IMPLIES(EXC != 0, %s == %s)' % (owned_blocks(), narr(na)))],
           covers=['EXC == 0 && g_a0 > 1', 'EXC != 0 && G_ncopy > 0'], assigns=['*out'], **COMMON, **TIER(D, True))
+    # ---------------------------------------------------------------- construction from an iterator range (1-D): array(first, last, alloc)
+    if D == 1:
+        Check('B1_ctor_range', ['C04', 'C08', 'C09', 'C10'], params=['out', 'a', 'id'], fn='w_B1_ctor_range',
+              wrapper=('void', 'Arr<1>* out, Arr<1> const* a, int id', 'new(out) Arr<1>(a->begin(), a->end(), A<E>{id});'),
+              cxx={'a': ARREC, 'out': ARREC}, ghosts=one['ghosts'], extra_roots=one['extra_roots'],
+              setup=SNAPDECL + base1 + 'G_may_fail = 1;', requires=req1,
+              ensures=[('success: an independent array with the size and elements of the range, storage from the given allocator (C04, C10)',
+                        'IMPLIES(EXC == 0, %s && %s && %s && %s && %s && (%s == 0 || out->base_ != a->base_) && out->alloc_.id == id)' % (same_shape('out', 'a', D), RI('out', D), RI('a', D), vals_are('out', na, 'g_va'), vals_are('a', na, 'g_va'), na)),
+                       ('failure: the source is untouched', 'IMPLIES(EXC != 0, %s && %s)' % (RI('a', D), vals_are('a', na, 'g_va'))),
+                       ('failure: a failed constructor leaves no element behind: only the elements of the source are alive (C09)', 'IMPLIES(EXC != 0, %s == %s)' % (total_live(), na)),
+                       ('failure: a failed constructor leaves no block behind: only the source block is outstanding (C09)', 'IMPLIES(EXC != 0, %s == %s)' % (owned_blocks(), narr(na)))],
+              covers=['EXC == 0 && g_a0 > 1', 'EXC != 0 && G_ncopy > 0'], assigns=['*out'], **COMMON)
+        ARN = r're:boost::multi::array<EN,1,A<EN(,false,false,false)?>>'
+        baseN = '__CPROVER_assume(%s); ' % bounds('a', D) + INIT + 'G_may_fail = 0; mkN1(a, g_a0, g_ida); __CPROVER_assume(!EXC); ' + HAVOC(0) + SNAP('g_va', 'BLK(a->base_)')
+        Check('B1N_ctor_range', ['C04', 'C08', 'C09', 'C10'], params=['out', 'a', 'id'], fn='w_B1N_ctor_range',
+              wrapper=('void', 'ArrN<1>* out, ArrN<1> const* a, int id', 'new(out) ArrN<1>(a->begin(), a->end(), A<EN>{id});'),
+              cxx={'a': ARN, 'out': ARN}, ghosts=one['ghosts'], extra_roots=['mkN1'],
+              setup=SNAPDECL + baseN + 'G_may_fail = 1;', requires=req1,
+              ensures=[('success: an independent array with the size and elements of the range (element type with noexcept move, throwing copy) (C04, C10)',
+                        'IMPLIES(EXC == 0, %s && %s && %s && %s && %s && (%s == 0 || out->base_ != a->base_) && out->alloc_.id == id)' % (same_shape('out', 'a', D), RI('out', D), RI('a', D), vals_are('out', na, 'g_va'), vals_are('a', na, 'g_va'), na)),
+                       ('failure: the source is untouched', 'IMPLIES(EXC != 0, %s && %s)' % (RI('a', D), vals_are('a', na, 'g_va'))),
+                       ('failure: a failed constructor leaves no element behind: only the elements of the source are alive (C09)', 'IMPLIES(EXC != 0, %s == %s)' % (total_live(), na)),
+                       ('failure: a failed constructor leaves no block behind: only the source block is outstanding (C09)', 'IMPLIES(EXC != 0, %s == %s)' % (owned_blocks(), narr(na)))],
+              covers=['EXC == 0 && g_a0 > 1', 'EXC != 0 && G_ncopy > 0'], assigns=['*out'], **COMMON)
     # ---------------------------------------------------------------- move construction
     Check('B%s_move_ctor' % tag, ['C04', 'C08', 'C09', 'C10'], params=['out', 'a'], fn='w_B%s_move_ctor' % tag,
           wrapper=('void', '%s<%d>* out, %s<%d>* a' % (AR, D, AR, D), 'new(out) %s<%d>(std::move(*a));' % (AR, D)),
